@@ -372,9 +372,14 @@ Value Search::search(Position& position, Depth depth, Value alpha, Value beta,
         EXIT_SEARCH(Value(0));
     }
 
+    bool is_in_check = position.is_in_check(position.color());
+
     // cannot check it in ROOT_NODE as it might return
-    // without any move
-    if (!ROOT_NODE && (position.is_repeated() || position.is_draw())) EXIT_SEARCH(VALUE_DRAW);
+    // without any move; when in check the position may be checkmate, which
+    // stands even if the 50-move count is reached with it: test that first
+    if (!ROOT_NODE && !is_in_check &&
+        (position.is_repeated() || position.is_draw()))
+        EXIT_SEARCH(VALUE_DRAW);
 
     VERIF_BOUND(info->_ply, 4 * MAX_DEPTH, "search.cpp:MOVE_LIST(search)");
     Move* begin = ROOT_NODE ? &(*_root_moves.begin()) : MOVE_LIST[info->_ply];
@@ -382,10 +387,13 @@ Value Search::search(Position& position, Depth depth, Value alpha, Value beta,
                           : generate_moves(position, position.color(), begin);
     const int n_moves = end - begin;
 
-    bool is_in_check = position.is_in_check(position.color());
     if (is_in_check) depth++;
 
     if (n_moves == 0) EXIT_SEARCH(is_in_check ? lost_in(0) : VALUE_DRAW);
+
+    if (!ROOT_NODE && is_in_check &&
+        (position.is_repeated() || position.is_draw()))
+        EXIT_SEARCH(VALUE_DRAW);
 
     if (depth == 0 || info->_ply >= MAX_DEPTH)
     {
@@ -704,7 +712,9 @@ Value Search::quiescence_search(Position& position, Depth depth, Value alpha,
     if (depth <= 0)
         EXIT_QSEARCH(is_in_check ? VALUE_DRAW : _scorer.score(position));
 
-    if (position.is_draw()) EXIT_QSEARCH(VALUE_DRAW);
+    // (when in check this is decided after the no-legal-move test below:
+    // a checkmate stands even with the 50-move count reached)
+    if (!is_in_check && position.is_draw()) EXIT_QSEARCH(VALUE_DRAW);
 
     // update search stats
     _stats.nodes_searched++;
@@ -734,6 +744,8 @@ Value Search::quiescence_search(Position& position, Depth depth, Value alpha,
     const int n_moves = end - begin;
 
     if (n_moves == 0) EXIT_QSEARCH(is_in_check ? lost_in(0) : VALUE_DRAW);
+
+    if (is_in_check && position.is_draw()) EXIT_QSEARCH(VALUE_DRAW);
 
     _move_orderer.order_moves(position, begin, end, info);
 
